@@ -155,10 +155,11 @@ def projection_algebra(ctx, k, d, active, centred):
 
 
 @contract('C10', 'decomposition_native', level='bounded', native_samples=6, tol=1e-7,
-          configs=[dict(side=s, centre=c, backed=b) for s in ('n>d', 'n<=d', 'n==d') for c in (True, False) for b in ('vector', 'pointcloud', 'image')],
+          configs=[dict(side=s, centre=c, backed=b, spectrum=sp) for s in ('n>d', 'n<=d', 'n==d') for c in (True, False) for b in ('vector', 'pointcloud', 'image')
+                   for sp in ('mild', 'wide') if not (sp == 'wide' and b == 'image')],
           functions=['menpo.math.decomposition:pca', 'menpo.math.decomposition:eigenvalue_decomposition', 'menpo.model.pca:PCAVectorModel.__init__',
                      'menpo.model.pca:PCAModel.__init__'])
-def decomposition_native(ctx, side, centre, backed):
+def decomposition_native(ctx, side, centre, backed, spectrum='mild'):
     """bounded stand-in (LAPACK eigen-solver, thresholds): orthonormal
     components, positive descending eigenvalues equal to the sample variance
     along each component, sample mean, exact reconstruction of the training
@@ -169,7 +170,8 @@ def decomposition_native(ctx, side, centre, backed):
     rs = ctx.nprng
     d = 8 if backed != 'image' else 12
     n = {'n>d': d + rs.randint(3, 9), 'n<=d': rs.randint(3, d), 'n==d': d}[side]
-    scales = np.linspace(3.0, 0.6, d)
+    # 'wide': standard deviations spanning three orders of magnitude (variance ratio ~1e-6): still well separated, nothing may be dropped
+    scales = np.linspace(3.0, 0.6, d) if spectrum == 'mild' else np.logspace(0.5, -2.6, d)
     X = rs.randn(n, d) * scales + rs.randn(d) * 2
     if backed == 'vector':
         m = PCAVectorModel(X.copy(), centre=centre)
@@ -182,6 +184,7 @@ def decomposition_native(ctx, side, centre, backed):
         mk = lambda mc: PCAModel([Image(x.reshape(1, 3, 4)) for x in X], centre=centre, max_n_components=mc)
     Cm, ev = m._components, m._eigenvalues
     k = Cm.shape[0]
+    ctx.check_true('n_components==rank-of-the-data', k == min(n - (1 if centre else 0), d), '%d vs %d' % (k, min(n - (1 if centre else 0), d)))
     ctx.check_eq('orthonormal-components', Cm.dot(Cm.T), np.eye(k))
     ctx.check_true('eigenvalues-positive-descending', bool(np.all(ev > 0) and np.all(np.diff(ev) <= 1e-12)))
     mean = X.mean(0) if centre else np.zeros(d)
